@@ -82,6 +82,7 @@ def _formatted(tag, mods):
         + f"pub fn {tag}_one(x: u32) -> u32 {{\n    let y = x + 1;\n    y\n}}\n\n"
         + f"pub struct {ty} {{\n    pub a: u32,\n    pub b: u32,\n}}\n\n"
         + f"pub fn {tag}_two() {{\n    let v = vec![1, 2, 3];\n    drop(v);\n}}\n"
+        + "\nuse std::fmt;\nuse std::io;\n"
     )
 
 
@@ -93,6 +94,9 @@ def _unformatted(tag, mods):
         + f"pub fn {tag}_one(x:u32)->u32{{let y=x+1;y}}\n\n"
         + f"pub struct {ty} {{\n    pub a: u32,\n    pub b: u32,\n}}\n\n"
         + f"pub fn {tag}_two()\n{{\nlet v = vec![1,2,3];\n    drop(v);\n}}\n"
+        # two imports in the wrong order: reordering yields a deletion-only and an insertion-only hunk AFTER
+        # hunks that changed the number of lines (original and formatted line numbers differ there)
+        + "\nuse std::io;\nuse std::fmt;\n"
     )
 
 
